@@ -89,6 +89,17 @@ def run(prop: str, tier: str, repo_root: str, evidence_dir=None, selftest=True) 
                     rep.undecided("SELFTEST", "false alarm on a behaviour-preserving refactoring: " + fa)
             except Exception as e:  # pragma: no cover
                 rep.extra["refactoring_twins"] = {"error": str(e)}
+            # mechanical behaviour-preserving restructurings of the whole package (alpha-renaming of every local, if/else
+            # swapped, `and` split into nested ifs, else <-> code behind a jump): same program, same verdict
+            try:
+                from selftest.rename_sweep import run_all_kinds
+
+                rs = run_all_kinds(prop, repo=repo_root, jobs=int(os.environ.get("VERIF_JOBS", "8")))
+                rep.extra["restructuring_sweep"] = rs
+                for cv in rs["changed_verdicts"]:
+                    rep.undecided("SELFTEST", "verdict changed by a mechanical behaviour-preserving restructuring: " + cv)
+            except Exception as e:  # pragma: no cover
+                rep.extra["restructuring_sweep"] = {"error": str(e)}
             # sensitivity measure (informational, never part of the verdict): a seeded sample of
             # generic single-point mutants of the functions that carry this property's obligations
             try:
